@@ -164,7 +164,8 @@ structure Sources where
   argv : List Item
 deriving Inhabited
 
-/-- `ActionConfigFile.apply_config`: parse without defaults/env, merge into the namespace being built, note the path -/
+/-- `ActionConfigFile.apply_config`: parse without defaults/env, merge into the namespace being built, note the path
+    (`if not isinstance(cfg.get(dest), list): cfg[dest] = []`, then `cfg[dest].append(cfg_path)`) -/
 def applyConfig (p : Parser) (dest : Key) (t : KV) (c : KV) : KV :=
   let m := mergeConfig p (expand p t) c
   setK dest (.lst (listOf (getK dest m) ++ [.none])) m
